@@ -109,6 +109,57 @@ def run(rep, facts, tier):
     ok = bool(somes) and bool(rel_edges) and all(cP.every_path_passes(None, s_, via_edges=rel_edges, from_entry=True) for s_ in somes)
     rep.check(ok, 'R20.2', '%s/reliable-only' % c.key, 'selected only under is_reliable() == true',
               'a reader proxy can enter the pending set without qos().is_reliable() being true', c.where())
+    # R20.8 (raised F29): with nothing written nobody is pending. The frontier of a fresh reader proxy and the last-written number of a fresh history are both constants;
+    # if the former is not past the latter, "acked-before <= last written" holds for an untouched pair and the filter needs a conjunct that excludes the empty history
+    rep.rule('R20.8', 'an empty history has nobody pending: either a fresh reader proxy starts with all_acked_before past the last_seq of a fresh HistoryBuffer (constants of the '
+                      'constructors), or every selection of the pending filter lies behind "something was written" (last written >= 1 / not (last written < 1))')
+    c_b = set()
+    for b_ in fx.bodies:
+        if b_.key.startswith('rtps::rtps_reader_proxy::RtpsReaderProxy::') and b_.kind in ('fn', 'assoc_fn'):
+            ob = None
+            for bb, si, st in b_.statements():
+                if st['s'] == 'assign' and st['rv']['r'] == 'agg' and strip_generics(st['rv'].get('adt', '')).endswith('RtpsReaderProxy') and 'all_acked_before' in (st['rv'].get('fields') or []):
+                    ob = ob or Origins(b_, summaries=False)
+                    v = ob.of_operand(st['rv']['ops'][st['rv']['fields'].index('all_acked_before')], bb, si)
+                    ks = [x for x in _leaf_consts(v)]
+                    c_b.add(int(ks[0][2]) if len(ks) == 1 and str(ks[0][2]).lstrip('-').isdigit() else (0 if v[0] == 'call' and v[1].endswith('::zero') else None))
+    hb = fx.find('rtps::writer::HistoryBuffer::new')
+    oh = Origins(hb, summaries=False)
+    c_s = None
+    for bb, si, st in hb.statements():
+        if st['s'] == 'assign' and st['rv']['r'] == 'agg' and 'last_seq' in (st['rv'].get('fields') or []):
+            v = oh.of_operand(st['rv']['ops'][st['rv']['fields'].index('last_seq')], bb, si)
+            ks = [x for x in _leaf_consts(v)]
+            c_s = int(ks[0][2]) if len(ks) == 1 and str(ks[0][2]).lstrip('-').isdigit() else None
+    fresh_acked = bool(c_b) and None not in c_b and c_s is not None and min(c_b) > c_s
+    written = []
+    for sbb, tg, cond, lab in switch_edges(c, fx, cog):
+        cr = resolve_captures(fx, c, cond, summaries=True)
+        neg, x = False, cr
+        while (x[0] == 'un' and x[1] == 'Not') or x[0] == 'captured':
+            if x[0] == 'captured':
+                x = x[2]
+            else:
+                neg, x = not neg, x[2]
+        if x[0] == 'call' and x[1].rsplit('::', 1)[-1] in ('lt', 'ge', 'gt', 'le') and len(x[2]) == 2:
+            op = x[1].rsplit('::', 1)[-1]
+            a, b2 = x[2]
+            s_a = term_has(a, lambda y: y[0] == 'field' and y[1] == 'last_seq')
+            one_b = [k for k in _leaf_consts(b2)] and all(str(k[2]) == '1' for k in _leaf_consts(b2)) and not term_has(b2, lambda y: y[0] in ('field', 'param'))
+            zero_b = [k for k in _leaf_consts(b2)] and all(str(k[2]) == '0' for k in _leaf_consts(b2)) and not term_has(b2, lambda y: y[0] in ('field', 'param'))
+            if s_a and ((op == 'lt' and one_b) or (op == 'le' and zero_b)):
+                truth_written = False           # the comparison says "nothing written"
+            elif s_a and ((op == 'ge' and one_b) or (op == 'gt' and zero_b)):
+                truth_written = True
+            else:
+                continue
+            if isinstance(lab, bool) and ((lab != neg) == truth_written):
+                written.append((sbb, tg))
+    guarded = bool(written) and bool(somes) and all(cP.every_path_passes(None, s_, via_edges=written, from_entry=True) for s_ in somes)
+    rep.check(fresh_acked or guarded, 'R20.8', 'process_writer_command/empty-history-completes',
+              'fresh proxy frontier %s vs fresh last_seq %s; selections behind "something was written": %s' % (sorted(c_b, key=str), c_s, guarded),
+              'with nothing written (last_seq = %s) a fresh reliable reader proxy (all_acked_before = %s) satisfies "acked-before <= last written" and is put into the pending set: '
+              'wait_for_acknowledgments waits for an acknowledgment of nothing instead of reporting success at once' % (c_s, sorted(c_b, key=str)), c.where())
     # is_reliable must be evaluated on the proxy the closure was given (the map value), not anything else
     # empty set => try_send on the completion channel
     def _emptiness(cond, lab):
@@ -375,3 +426,17 @@ def rule_20_6(rep, fx):
     # ------------------------------------------------------------ R20.7 the acknowledgment has to be asked for (shared with C02 R02.14)
     from rules.C02 import rule_heartbeat_solicits
     rule_heartbeat_solicits(rep, fx, 'R20.7')
+
+
+def _leaf_consts(t):
+    out = []
+
+    def rec(x):
+        if isinstance(x, tuple):
+            if x and x[0] == 'const':
+                out.append(x)
+                return
+            for y in x:
+                rec(y)
+    rec(t)
+    return out
